@@ -445,15 +445,26 @@ fn lock_scenario() {
 	let live = Arc::new(AtomicUsize::new(0));
 	let opened = Arc::new(AtomicUsize::new(0));
 	let refused = Arc::new(AtomicUsize::new(0));
+	let dropping = Arc::new(AtomicUsize::new(0));
 	let mut tasks = Vec::new();
 	for t in 0..ntasks {
 		let o = o.clone();
 		let live = live.clone();
+		let dropping = dropping.clone();
 		let opened = opened.clone();
 		let refused = refused.clone();
 		tasks.push(thread::spawn(move || {
 			let mut rng = shuttle::rand::thread_rng();
-			for r in 0..rounds {
+			// a task keeps trying (with pauses of a few switch points) until it has held the
+			// database `rounds` times: attempts are spread over the whole life of the other
+			// handles, including their shutdown
+			let mut r = 0usize;
+			let mut attempts = 0usize;
+			while r < rounds && attempts < 1500 {
+				attempts += 1;
+				if dropping.load(Ordering::SeqCst) > 0 {
+					probe("open_attempted_while_another_handle_was_being_dropped");
+				}
 				match Db::open(&o) {
 					Ok(db) => {
 						let n = live.fetch_add(1, Ordering::SeqCst) + 1;
@@ -470,8 +481,11 @@ fn lock_scenario() {
 							other => panic!("VIOL C18 data-lost: seed key reads {:?}", other.map(|o| o.map(|v| v.len()))),
 						}
 						// no scheduling point between the end of drop and the decrement
+						dropping.fetch_add(1, Ordering::SeqCst);
 						drop(db);
+						dropping.fetch_sub(1, Ordering::SeqCst);
 						live.fetch_sub(1, Ordering::SeqCst);
+						r += 1;
 					},
 					Err(Error::Locked(_)) => {
 						refused.fetch_add(1, Ordering::SeqCst);
@@ -482,7 +496,12 @@ fn lock_scenario() {
 					},
 					Err(e) => panic!("VIOL C18 wrong-error: open of a directory that is in use failed with {e} instead of Locked"),
 				}
-				thread::yield_now();
+				for _ in 0..rng.gen_range(0..40) {
+					thread::sleep(std::time::Duration::ZERO);
+				}
+				if rng.gen_bool(0.3) {
+					thread::yield_now();
+				}
 			}
 		}));
 	}
